@@ -22,4 +22,7 @@ CASES = [
          dict(file="reactivex/operators/_skipwithtime.py", old="        return CompositeDisposable(t, d)", new="        def action(scheduler: abc.SchedulerBase, state: Any) -> None:\n            open[0] = True\n\n        t = _scheduler.schedule_relative(duration, action)\n        return CompositeDisposable(t, d)")]),
     dict(expect="fire", desc="seed C17-r2/3: timeout on_next no longer bumps the id", names="X2-timeout-stale-guard", edits=[dict(file="reactivex/operators/_timeout.py",
          old="            if send_wins:\n                _id[0] += 1\n", new="            if send_wins:\n")]),
+    dict(expect="silent", desc="skip_with_time: timer handle named differently, still armed first", edits=[dict(file="reactivex/operators/_skipwithtime.py",
+         old="        t = _scheduler.schedule_relative(duration, action)", new="        timer_handle = _scheduler.schedule_relative(duration, action)"),
+         dict(file="reactivex/operators/_skipwithtime.py", old="        return CompositeDisposable(t, d)", new="        return CompositeDisposable(timer_handle, d)")]),
 ]
